@@ -776,7 +776,125 @@ def dispatch_constants(out):
         "(" + lean_str(a) + ", " + lean_str(b) + ", " + lean_str(c) + ")" for a, b, c in rows) + "]")
 
 
-SECTIONS = {"Dispatch": dispatch_constants, "Frame": frame_constants, "Config": config_constants, "Socks": socks_constants,
+def fixedtarget_constants(out):
+    # C01 (glue): the two fixed-target entry points of the client, `handle_tcp` (handle_remote/tcp.rs) and
+    # `handle_udp` (handle_remote/udp.rs), and `request_tcp_channel` (handle_remote/common.rs): the statements
+    # before the loop and the statements of the loop body, in source order, as normalised text (tracing macros
+    # left out).  Model/FixedTarget.lean is a transcription of exactly these statements; the `Datagram` literal
+    # of `handle_udp` is listed field by field as well.
+    def lean_str(t):
+        return '"' + t.replace("\\", "\\\\").replace('"', '\\"') + '"'
+
+    def norm(t):
+        t = re.sub(r"\s+", " ", t.strip())
+        t = re.sub(r"\s*\.\s*(?=[A-Za-z_])", ".", t)          # method chains written over several lines
+        t = re.sub(r"([(\[])\s+", r"\1", t)
+        t = re.sub(r",?\s+([)\]])", r"\1", t)                  # trailing comma of a multi-line call
+        t = re.sub(r",\s*\}", " }", t)                         # trailing comma of a struct literal
+        return t
+
+    def statements(body, what, sep=";"):
+        """Split a block body into its top-level statements (at depth 0 of () [] {}; string literals skipped)."""
+        stmts, depth, cur, i, instr = [], 0, "", 0, False
+        while i < len(body):
+            ch = body[i]
+            if instr:
+                cur += ch
+                if ch == "\\":
+                    cur += body[i + 1]
+                    i += 1
+                elif ch == '"':
+                    instr = False
+            elif ch == '"':
+                instr = True
+                cur += ch
+            elif ch in "([{":
+                depth += 1
+                cur += ch
+            elif ch in ")]}":
+                depth -= 1
+                if depth < 0:
+                    raise Broken(f"{what}: unbalanced brackets")
+                cur += ch
+            elif ch == sep and depth == 0:
+                stmts.append(cur)
+                cur = ""
+            else:
+                cur += ch
+            i += 1
+        if depth != 0 or instr:
+            raise Broken(f"{what}: unbalanced brackets")
+        if cur.strip():
+            stmts.append(cur)                                  # a trailing block / expression without `;`
+        stmts = [norm(x) for x in stmts]
+        return [x for x in stmts if not re.match(r"(trace|debug|info|warn|error)!\(", x)]
+
+    def split_loop(fn_body, what):
+        """(statements before the one `loop { … }` that ends the function, statements of its body)."""
+        if len(re.findall(r"\bloop\s*\{", fn_body)) != 1:
+            raise Broken(f"{what}: expected exactly one `loop {{`")
+        if re.search(r"\b(for|while)\b", fn_body):
+            raise Broken(f"{what}: a second (for / while) loop inside the function")
+        m = re.search(r"^(.*?)\bloop\s*\{(.*)\}\s*$", fn_body, re.S)
+        if not m:
+            raise Broken(f"{what}: the function does not end with its loop")
+        return statements(m.group(1), what), statements(m.group(2), what)
+
+    def emit_list(name, xs):
+        out.append(f"def {name} : List String := [" + ", ".join(lean_str(x) for x in xs) + "]")
+
+    # --- handle_udp
+    src = strip_comments(read("penguin/src/client/handle_remote/udp.rs")).split("#[cfg(test)]")[0]
+    params, body = one(r"async fn handle_udp\((.*?)\)\s*->\s*Result<\(\), FatalError>\s*\{(.*?)\n\}\n", src,
+                       "udp.rs: fn handle_udp", re.S)
+    one(r"\brhost: &'static str\b", params, "handle_udp: parameter rhost")
+    one(r"\brport: u16\b", params, "handle_udp: parameter rport")
+    for pat, what in [(r"\w*recv_from\(", "a receive call"), (r"\badd_udp_client\(", "add_udp_client"),
+                      (r"\bDatagram\s*\{", "the Datagram literal"), (r"\bdatagram_tx\b", "datagram_tx"),
+                      (r"\bclient_id\b(?=\s*=[^=])", "a binding of client_id"), (r"\|[^|]*\|", "no closure")]:
+        n = len(re.findall(pat, body))
+        if n != (0 if what == "no closure" else 1):
+            raise Broken(f"handle_udp: {what}: found {n} times")
+    pre, loop = split_loop(body, "handle_udp")
+    emit_list("fixedUdpPrelude", pre)
+    emit_list("fixedUdpLoop", loop)
+    lit = one(r"\bDatagram\s*\{(.*?)\}", body, "handle_udp: the Datagram literal", re.S)
+    fields = []
+    for f in statements(lit, "handle_udp: Datagram literal", sep=","):
+        fm = re.fullmatch(r"(\w+): (.*)", f)
+        if not fm:
+            raise Broken(f"handle_udp: Datagram field not of the form name: expr: {f[:60]}")
+        fields.append((fm.group(1), fm.group(2)))
+    if sorted(k for k, _ in fields) != ["data", "flow_id", "target_host", "target_port"]:
+        raise Broken(f"handle_udp: Datagram fields are {[k for k, _ in fields]}")
+    out.append("def fixedUdpFrame : List (String × String) := [" + ", ".join(
+        "(" + lean_str(k) + ", " + lean_str(v) + ")" for k, v in sorted(fields)) + "]")
+
+    # --- handle_tcp
+    src = strip_comments(read("penguin/src/client/handle_remote/tcp.rs")).split("#[cfg(test)]")[0]
+    params, body = one(r"async fn handle_tcp<L>\((.*?)\)\s*->\s*Result<\(\), FatalError>[^{]*\{(.*?)\n\}\n", src,
+                       "tcp.rs: fn handle_tcp", re.S)
+    one(r"\brhost: &'static str\b", params, "handle_tcp: parameter rhost")
+    one(r"\brport: u16\b", params, "handle_tcp: parameter rport")
+    for pat, what in [(r"\.reserve\(\)", "reserve()"), (r"\.accept\(\)", "accept()"),
+                      (r"\brequest_tcp_channel\(", "request_tcp_channel"),
+                      (r"\binto_copy_bidirectional\w*\(", "into_copy_bidirectional"), (r"\btokio::spawn\(", "tokio::spawn")]:
+        n = len(re.findall(pat, body))
+        if n != 1:
+            raise Broken(f"handle_tcp: {what}: found {n} times")
+    pre, loop = split_loop(body, "handle_tcp")
+    emit_list("fixedTcpPrelude", pre)
+    emit_list("fixedTcpLoop", loop)
+
+    # --- request_tcp_channel
+    src = strip_comments(read("penguin/src/client/handle_remote/common.rs")).split("#[cfg(test)]")[0]
+    params, body = one(r"pub async fn request_tcp_channel\((.*?)\)\s*->[^{]*\{(.*?)\n\}\n", src,
+                       "common.rs: fn request_tcp_channel", re.S)
+    emit_list("fixedRequestParams", [norm(params).rstrip(",")])
+    emit_list("fixedRequestBody", statements(body, "request_tcp_channel"))
+
+
+SECTIONS = {"Dispatch": dispatch_constants, "FixedTarget": fixedtarget_constants, "Frame": frame_constants, "Config": config_constants, "Socks": socks_constants,
             "ClientReq": clientreq_constants,
             "Client": client_constants, "Server": server_constants, "Tls": tls_constants,
             "UdpMap": udpmap_constants,
